@@ -24,8 +24,8 @@ RULE = (
 )
 BOUNDS = "respondents 0..24, valid categories 1..4, items 1..3, insertions 0..2"
 ASSUMPTIONS = [
-    "container-level nulls (filter_stats: null) and null selected/other counts are outside "
-    "the documented input domain and are not generated",
+    "null selected/other counts inside a present complete-case block are outside the "
+    "documented input domain and are not generated (null containers and null weighted_n are)",
     "both dimensions categorical-date: only the fraction and linearity are asserted",
     "proportions and std-errs of the same run are used as the population proportion / error "
     "(they are tied to respondents by C03 / C11)",
@@ -64,24 +64,29 @@ def filter_block_st(draw):
         extras["filter_stats"] = {"filtered_complete": {"weighted": None}}
     elif kind == "new-empty":
         extras["filter_stats"] = draw(st.sampled_from([{}, {"filtered_complete": {}},
-                                                       {"filtered_complete": {"weighted": {}}}]))
-    if kind in ("new-null", "new-empty") and draw(st.booleans()):
+                                                       {"filtered_complete": {"weighted": {}}},
+                                                       {"filtered_complete": None}, None]))
+        # a null container is "unspecified" as much as a missing or empty one
+        if draw(st.integers(0, 3)) == 0 and "filtered" in extras:
+            extras[draw(st.sampled_from(["filtered", "unfiltered"]))] = None
+    if kind in ("new-null", "new-empty") and extras["filter_stats"] is not None \
+            and draw(st.booleans()):
         # the categorical-date flag only matters when complete-case statistics are present
         extras["filter_stats"] = dict(extras["filter_stats"], is_cat_date=True)
     return extras
 
 
 def expected_fraction(extras):
-    fs = extras.get("filter_stats", {})
-    wfc = fs.get("filtered_complete", {}).get("weighted")
+    fs = extras.get("filter_stats") or {}
+    wfc = (fs.get("filtered_complete") or {}).get("weighted")
     if wfc:
         if fs.get("is_cat_date"):
             return 1.0
         num = wfc["selected"]
         den = num + wfc["other"]
     else:
-        num = extras.get("filtered", {}).get("weighted_n")
-        den = extras.get("unfiltered", {}).get("weighted_n")
+        num = (extras.get("filtered") or {}).get("weighted_n")
+        den = (extras.get("unfiltered") or {}).get("weighted_n")
     if num is None or den is None:
         return 1.0
     if den == 0:
